@@ -460,11 +460,15 @@ PROPS["C17"] = dict(
     level_text="C17_loop_accesses_ordered: on the access table regenerated from eventloop.go (93 reads/writes of loop, job, Timer and Interval fields, "
                "with the mutexes held and the sync/atomic calls), every conflicting pair is ordered: both atomic, a common mutex, the same goroutine "
                "(the owner, unique by C17_single_owner = C03), or before publication; C17_registry_accesses_ordered for the Registry; "
-               "C17_loaded_at_most_once / _exactly_once / C17_order_irrelevant: the compile cache as a function of any request sequence",
+               "C17_loaded_at_most_once / _exactly_once / C17_order_irrelevant: the compile cache as a function of any request sequence; "
+               "C17_lock_discipline: on the table of synchronisation events regenerated from the source, one global lock order, no re-acquisition, "
+               "nothing that can block on another thread inside a critical section, the only wait inside one is the condition wait that releases it",
     level_note="The race-freedom theorems are computations over tables the translator extracts syntactically on every run (unit, use of each function "
                "literal, field, read/write, locks held, atomic); which goroutines may execute a unit is the hand-written part of Model/LoopAccess.v. "
                "Go's memory model (mutex, atomic, channel and go-statement ordering) is trusted, as are goja's internals (a runtime is used by one "
-               "goroutine at a time exactly when the owner is unique). Deadlock freedom is exercised (time-outs), not proved. Executed interleavings "
+               "goroutine at a time exactly when the owner is unique). Deadlock: the mutex part is decided on the generated table of synchronisation "
+               "events (C17_lock_discipline; the semantics of sync.Mutex / sync.Cond is trusted); waits on channels and on the condition variable are "
+               "the subject of the model's theorems (C04 no lost wake-up, C07 stop request never lost) and are exercised with time-outs. Executed interleavings "
                "are additionally checked by the Go race detector (harness built with -race, workload in a child process).",
     rule="(A) per batch 6 loops: 2-6 goroutines x 200 calls of RunOnLoop/SetTimeout/SetInterval/ClearTimeout/ClearInterval/StopNoWait with random "
          "pauses against a started loop whose controller cycles Stop/Terminate/Start; callbacks run JavaScript that sets more timers and immediates; "
